@@ -25,10 +25,11 @@ pub struct Meta { _p: u8 }
 impl Meta {
     pub uninterp spec fn bytes(&self) -> Seq<u8>;
     #[verifier::external_body]
-    pub fn serialized_size(&self) -> (r: u64) ensures r == self.bytes().len() { unimplemented!() }
-    #[verifier::external_body]
     pub fn unwrap_or_default(m: Option<Meta>) -> (r: Meta) ensures m is Some ==> r == m->Some_0 { unimplemented!() }
 }
+// bincode::serialized_size(&meta).expect(..) (cannot fail for a map of strings to byte vectors: no size limit is configured): the length of what bincode::serialize_into writes for it (bincode contract)
+#[verifier::external_body]
+pub fn bincode_meta_size(m: &Meta) -> (r: u64) ensures r == m.bytes().len() { unimplemented!() }
 impl Bytes {
     #[verifier::external_body]
     pub fn len(&self) -> (r: usize) ensures r == self@.len() { unimplemented!() }
